@@ -82,9 +82,19 @@ fn cases(tier: Tier) -> Vec<Case> {
             }
         }
     }
+    if tier == Tier::Quick {
+        // four names, unshared storage, generic derivative values (the thorough tier runs the full four-name space)
+        let la = operands(4, 1.5, 0, false);
+        let lb = operands(4, -2.5, 1, false);
+        for a in la.iter().filter(|x| x.g.iter().all(|g| *g != 0.0)) {
+            for b in lb.iter().filter(|x| x.g.iter().all(|g| *g != 0.0)) {
+                out.push(Case { nuni: 4, a: a.clone(), b: b.clone(), storage: 0, large: None });
+            }
+        }
+    }
     // a menu of LARGE layouts (sizes around powers of two), each relation of b's list to a's
-    for size in [7usize, 8, 9, 15, 16, 17, 33] {
-        for relation in 0..7u8 {
+    for size in [7usize, 8, 9, 15, 16, 17, 33, 63, 64, 65, 70, 130] {
+        for relation in 0..9u8 {
             out.push(Case { nuni: 0, a: NumSpec::constant(1.5), b: NumSpec::constant(-2.5), storage: 0, large: Some((size, relation)) });
         }
     }
@@ -108,7 +118,24 @@ fn large_lists(size: usize, relation: u8) -> (Vec<usize>, Vec<usize>) {
             v
         }
         5 => (size..2 * size).collect(),
-        _ => (size / 2..size / 2 + size).rev().collect(),
+        6 => (size / 2..size / 2 + size).rev().collect(),
+        7 => {
+            // first and last name fixed, the middle reversed
+            let mut v: Vec<usize> = (0..size).collect();
+            v[1..size - 1].reverse();
+            v
+        }
+        _ => {
+            // subset keeping the first and the last name, middle names thinned out and swapped pairwise
+            let mut v: Vec<usize> = (0..size).filter(|i| *i == 0 || *i == size - 1 || i % 3 != 1).collect();
+            let m = v.len();
+            let mut k = 1;
+            while k + 1 < m - 1 {
+                v.swap(k, k + 1);
+                k += 2;
+            }
+            v
+        }
     };
     (a, b)
 }
@@ -118,8 +145,10 @@ fn check_large(size: usize, relation: u8, case: &Case, idx: u64, acc: &mut Acc) 
     use rateslib::dual::{Gradient1, Gradient2};
     let (la, lb) = large_lists(size, relation);
     let nv = 2 * size + 2;
+    let heavy = size > 40; // Hessians of 130+ names: first order and one second-order product only
     let uni: Vec<String> = (0..nv).map(|i| format!("n{}", i)).collect();
-    let gv = |name: usize, side: usize| gen_val(name * 3 + side * 5 + 1) + 0.03125 * name as f64;
+    // deliberately non-dyadic values (sums of them depend on the order of summation in the last bit)
+    let gv = |name: usize, side: usize| gen_val(name * 3 + side * 5 + 1) + 1.0 / (3.0 + name as f64 + 0.5 * side as f64);
     let hv = |i: usize, j: usize, side: usize| if i == j || i + 1 == j || j + 1 == i || (i.min(j) == 0 && i.max(j) % 5 == 4) { 0.25 * gen_val(i + j + side) } else { 0.0 };
     let mk_ref = |l: &Vec<usize>, v: f64, side: usize, second: bool| -> DR {
         let mut d = DR::zero(nv);
@@ -205,7 +234,11 @@ fn check_large(size: usize, relation: u8, case: &Case, idx: u64, acc: &mut Acc) 
         let b = Dual2::try_new(-2.5, names(&lb), lb.iter().map(|n| gv(*n, 1)).collect(), hflat(&lb, 1)).unwrap();
         let cls = class_name(&a.vars_cmp(b.vars()));
         let (ra, rb) = (mk_ref(&la, 1.5, 0, true), mk_ref(&lb, -2.5, 1, true));
-        let wants: [(&str, DR); 4] = [("add", ra.add(&rb, 1.0)), ("sub", ra.add(&rb, -1.0)), ("mul", ra.mul(&rb)), ("div", ra.mul(&rb.recip()))];
+        let mut wants: Vec<(&str, DR)> = vec![("add", ra.add(&rb, 1.0)), ("mul", ra.mul(&rb))];
+        if !heavy {
+            wants.push(("sub", ra.add(&rb, -1.0)));
+            wants.push(("div", ra.mul(&rb.recip())));
+        }
         for (op, w) in wants.iter() {
             acc.eval();
             let got: Dual2 = match *op {
@@ -503,8 +536,9 @@ pub fn run(ctx: &Ctx, replay_file: Option<String>) -> ! {
          Non-trivial: pairs whose vars_cmp class (observed through the public vars_cmp) is not ArcEquivalent; the run \
          refuses to report if any of the five classes or the 'equal pair' class is empty. Oracle: by-name RefDual \
          result, union of names each once, matching shapes, == iff equal by name with missing == 0. In addition a \
-         menu of LARGE layouts (7, 8, 9, 15, 16, 17, 33 names) x 7 relations of the second list to the first (same, \
-         rotated, reversed, every other name, superset, disjoint, overlapping) against a dense by-name reference.",
+         menu of LARGE layouts (7 .. 17, 33, 63, 64, 65, 70, 130 names, non-dyadic derivative values) x 9 relations of the \
+         second list to the first (same, rotated, reversed, every other name, superset, disjoint, overlapping, ends fixed \
+         with the middle reversed, thinned and pairwise swapped) against a dense by-name reference.",
         json!({"names": ctx.tier.pick(3, 4), "cases": cs.len(), "value_pairs": [[1.5, -2.5], [1.5, 1.5]]}),
     )
     .assume("RefDual reference model (harness/src/refdual.rs)")
